@@ -81,6 +81,11 @@ pub fn judge_case(c: &Case) -> Obs {
         if name.len() == 1 && "xXoObB".contains(name.as_str()) {
             continue;
         }
+        // a label whose name spells an integer of the command grammar (`40`, `007`) is an integer
+        // there, not a label (C14's business)
+        if crate::refcmd::value(name).is_some() {
+            continue;
+        }
         let addr = orig as i64 + *idx as i64;
         let mut offsets = vec![0i64, 1, -1, -(*idx as i64), n as i64 - *idx as i64, -(*idx as i64) - 1];
         if let Some(o) = c.offs.get(k) {
